@@ -565,6 +565,20 @@ def a_r2_r3_properties(schema: Schema, rep: Report):
                         rep.check("A-R3", f"{cname}.{fn.name}->self.{first}:wrapped", ok, f"{cname}.{fn.name} returns self.{first}; the wrapper's own sub-aggregate is {[c.name for c in own]}" if not ok else "", lc)
                     if fn.name in ("org", "fid") and len(chain) == 2:
                         rep.check("A-R3", f"{cname}.{fn.name}->self.{'.'.join(chain)}:same-name", chain[-1] == fn.name, f"{fn.name} returns .{chain[-1]}", lc)
+            # an alias is the child on EVERY path: `statement` / `profile` / `account` ... never answer None (or anything
+            # else) while the child they stand for is there - e.g. depending on the wrapper's status
+            if fn.name in ("statement", "profile") or fn.name in ALIAS_TABLE:
+                rets_all = [x for x in own_nodes(fn) if isinstance(x, ast.Return)]
+                alias_rets = [x for x in rets_all if isinstance(x.value, ast.Attribute) and isinstance(x.value.value, ast.Name) and x.value.value.id == "self"]
+                other_rets = [x for x in rets_all if x not in alias_rets and (x.value is None or isinstance(x.value, ast.Constant))]
+                if alias_rets and other_rets:
+                    o_ = other_rets[0]
+                    rep.check("A-R3", f"{cname}.{fn.name}:alias-on-every-path", False, f"{cname}.{fn.name} returns {text(o_.value) if o_.value is not None else 'None'} on a path although it is the alias of self.{alias_rets[0].value.attr}: when that child is present the shortcut no longer returns the object found on the full path", f"{definer.mod.relpath}:{o_.lineno}")
+            # explicit raises in a shortcut are AttributeError: anything else escapes hasattr() / getattr(x, name, default)
+            for r_ in [x for x in own_nodes(fn) if isinstance(x, ast.Raise) and x.exc is not None]:
+                et = text(r_.exc.func) if isinstance(r_.exc, ast.Call) else text(r_.exc)
+                if et.split(".")[-1] not in ("AttributeError",):
+                    rep.check("A-R3", f"{cname}.{fn.name}:raises-only-AttributeError", False, f"{cname}.{fn.name} raises {et}: hasattr(obj, '{fn.name}') and getattr(obj, '{fn.name}', default) - also through an enclosing aggregate, whose __getattr__ only passes AttributeError on - raise instead of reporting a clean miss", f"{definer.mod.relpath}:{r_.lineno}")
             # a sub-aggregate is a list: without list members it is falsy even when it is there.  `return self.<child> or X`
             # therefore replaces a present (member-less) child by X - the shortcut is no longer the object on the full path
             for r_ in [x for x in own_nodes(fn) if isinstance(x, ast.Return) and isinstance(x.value, ast.BoolOp) and isinstance(x.value.op, ast.Or)]:
